@@ -9,7 +9,7 @@ from __future__ import annotations
 import asyncio
 import json
 
-from .. import evalenv, extract, valgen as V
+from .. import evaluation as E, evalenv, extract, valgen as V
 from ..common import Ctx
 
 MODULES = ["Ahbicht.Properties.C17"]
@@ -36,7 +36,7 @@ def run(ctx: Ctx) -> None:
         ctx.lean_audit(MODULES)
         if not ctx.quick:
             ctx.lean_check_olean(MODULES)
-    evalenv.configure_cer_based()
+    E.configure(ctx.rng)  # evaluators: content-result based or evaluate_<key> methods, suspending under a random schedule half of the time
     rng = ctx.rng
     rows = []
     for i in range(ctx.pick(500, 5000)):
@@ -53,6 +53,7 @@ def run(ctx: Ctx) -> None:
         V.set_cer(cer)
         seg = V.to_maus({"lines": [{"t": "g", "disc": "g", "expr": {"parts": [["X", "X", None]]}, "groups": [], "segs": [{"disc": "s", "expr": {"parts": [["X", "X", None]]}, "des": [spec]}]}]})
         de = seg.lines[0].segments[0].data_elements[0]
+        E._arm(cer["rc"], cer["fc"], cer["hints"], cer["packages"])  # pylint:disable=protected-access
         try:
             r = asyncio.run(validate_data_element_valuepool(de, R(parent)))
             got = V.canon_result(r)
